@@ -33,10 +33,11 @@ ASSUMPTIONS = [
     'the substituted value itself carries no arguments tagged with the selected tag',
     'Buildables that become unreachable through the substitution are not judged',
 ]
-MINIMUMS = {
+MINIMUMS = {  # (tag_edits_on_transformed_copy added with the round-2 seeds)
     'quick': {'evaluations': 1000, 'set_tagged_matches': 800, 'matched_positional': 100,
               'matched_via_subclass': 300, 'tag_ops_applied': 3000, 'survival_checks': 2000,
-              'tagged_value_builds': 150, 'matched_unset_argument': 100},
+              'tagged_value_builds': 150, 'matched_unset_argument': 100,
+              'tag_edits_on_transformed_copy': 1500},
     'thorough': {'evaluations': 1000},
 }
 
@@ -220,6 +221,26 @@ def run_case(rng, acc):
       acc.violation(f'tags-lost-or-changed:{name}',
                     f'configuration after {name} differs from the original (tags/arguments)',
                     witness(transform=name))
+      continue
+    # the tags of the result are its own: editing them must not reach the original
+    edited = 0
+    shallow = name in ('cast-roundtrip', 'copy_with')     # nested values stay shared by design
+    for b in ([out] if shallow else reachable_buildables(out)):
+      if not isinstance(b, fdl.Buildable):
+        continue
+      for k, ts in list(b.__argument_tags__.items()):
+        if ts and edited < 3:
+          fdl.add_tag(b, k, next(t for t in vtags.ALL + [vtags.TagA] if t not in ts or t is vtags.TagA))
+          fdl.remove_tag(b, k, sorted(ts, key=lambda t: t.__name__)[0])
+          edited += 1
+    if edited:
+      acc.obs('tag_edits_on_transformed_copy', edited)
+      if tag_map(cfg) != ref:
+        acc.violation(f'tag-edit-on-result-changes-original:{name}',
+                      f'after {name}, adding/removing a tag on the result changed the tags of '
+                      'the original configuration', witness(transform=name))
+        cfg = gen.to_fiddle(root)
+        ref = tag_map(cfg)
   # (a)+(b) substitution by tag
   T = rng.choice(vtags.ALL)
   op = rng.choice(['set_tagged', 'replace', 'replace-deepcopy'])
